@@ -7,23 +7,48 @@ value defined by the minimal fact stated here; `n` is the length of the 1-D argu
 (2) np.sqrt(a) of an array                fresh r, same shape:   forall i:  r[i] == sqrt(a[i])
                                           (sqrt is the engine's uninterpreted sqrt; its axioms stay opt-in, uses_math).
 (3) np.mean(a), a 1-D real array          obligation  n > 0  (numpy returns NaN for an empty array; R1 has no NaN)
-                                          result m = mean1(a, n)   with   n * m == sum1(a, n),
-                                          sum1(a, 0) == 0,  forall k >= 0: sum1(a, k + 1) == sum1(a, k) + a[k].
-    When the argument is written as the column slice `X[:, c]` of a 2-D real array the same facts are stated on
-    colmean(X, c, n) / colsum(X, c, n) with a[k] := X[k, c] (n = X.shape[0]): program and specification then denote the
-    mean of a column by the SAME term and no array-extensionality reasoning is needed to identify them.
+                                          result: a constant m_a with   n * m_a == S_a(n),
+                                          S_a(0) == 0,  forall k >= 0: S_a(k + 1) == S_a(k) + a[k].
+    m_a / S_a are chosen per array TERM (same term => same constant: np.mean is a function of its argument).  When the
+    argument is written as the column slice `X[:, c]` of a 2-D real array the facts are stated on the column directly,
+    a[k] := X[k, c], n = X.shape[0], keyed by (X, c): program and specification then denote the mean of a column of the
+    same array by the SAME constant and no array-extensionality reasoning is needed to identify them.
 (4) np.min(a) / np.max(a), a 1-D array    obligation  n > 0  (numpy raises ValueError on an empty array)
                                           result m, ghost index w:  0 <= w < n,  m == a[w],
                                           forall j in [0, n):  m <= a[j]      (np.max:  m >= a[j]).
 (5) np.argmin(a), a 1-D array             obligation  n > 0
                                           result i:  0 <= i < n,  forall j in [0, n): a[i] <= a[j].
     (numpy additionally returns the FIRST minimal index; that tie rule is not assumed.)
-(7) np.square, ONLY inside the contracts listed in OPAQUE_SQUARE (performance device, no new meaning):
-    np.square(x) is read as sq18(x) (element-wise for arrays: fresh r, forall i: r[i] == sq18(a[i])), where sq18 is the
-    uninterpreted symbol of the opaque contract macro `sq18(x) = x * x`; its definition is the opt-in axiom
-        uses_math "sq18":   forall x:  sq18(x) == x * x .
-    Specification and program then share the symbol sq18, so that identifying the program's radii / distances with
-    those of the specification is congruence + linear arithmetic instead of non-linear arithmetic.
+(7) opaque arithmetic with explicit unfold points (performance device; the DSL macros of contracts/c18_border.py and
+    the definitions below must agree -- engine C executes the macro bodies on every run):
+      sq18(x)  = x * x         mfac18(a, b) = a / b         mv18(c, m, p) = c + m * (p - c)         unf18(x) = x
+    are opaque macros (uninterpreted symbols for the prover).  Inside the contracts listed in OPAQUE_SQUARE np.square(x)
+    is read as sq18(x) (element-wise for arrays: fresh r, forall i: r[i] == sq18(a[i])), so the program's radii and
+    distances are identified with those of the specification by congruence + linear arithmetic.  The definitions are
+    opt-in axioms (uses_math) that fire only where a ghost assertion asks for them:
+      "sq18":        forall x {unf18(x)}:            unf18(x) == x  and  sq18(x) == x * x
+      "mfac18":      forall a, b {u_mfac18(a, b)}:   u_mfac18(a, b)  and  mfac18(a, b) == a / b
+      "mv18":        forall c, m, p {u_mv18(c, m, p)}: u_mv18(c, m, p)  and  mv18(c, m, p) == c + m * (p - c)
+    (u_* are marker predicates, `True` at run time), and the engine's sqrt axiom split in two:
+      "sqrt_nonneg": forall a {sqrt(a)}:             sqrt(a) >= 0
+      "sqrt_sq_at":  forall a {sqrt(unf18(a))}:      a >= 0  ->  sqrt(a) * sqrt(a) == a
+    Unfolding every square / quotient / square root everywhere drowns z3's non-linear solver.
+(8) (no new fact) the two quantified facts with which the engine defines a basic slice `a[lo:hi, c]` are re-stated with
+    their index arithmetic simplified (`0 + j` -> `j`, `c - 0` -> `c`): with the unsimplified offsets the forward
+    (trigger: slice element) and backward (trigger: source element) facts feed each other new index terms
+    `0 + t`, `(0 + t) - 0`, ... -- a matching loop that makes every obligation of a function with several column
+    slices slow.  Same bound variables, same body up to z3.simplify, same triggers.
+(9) (no new fact) row store `a[i, :] = v` of a 1-D array value into a 2-D array, ONLY inside the contracts listed in
+    ROW_LEN = {contract key: n}: obligations  a.shape[1] == n  and  len(v) == n, then the n element stores
+    a[i, 0] = v[0], ..., a[i, n-1] = v[n-1]  -- the engine's own reading stores the array term v as ONE element of the
+    array-of-rows, which makes every 1-D array of the proof a potential array element and switches on pairwise
+    extensionality reasoning (measured: 170 `array-ext` index terms, 60 000 quantifier instances per obligation).
+(10) (drops an axiom, adds none) the obligations of the contracts listed in NO_ARRAY_EXT are sent to z3 with
+    `smt.array.extensional=false`.  The engine models a 2-D array as an array of rows, so every 1-D temporary of a
+    vectorised function has the sort of an array ELEMENT and z3 instantiates the extensionality axiom for every pair
+    of them (measured here: ~170 `array-ext` index terms, each re-triggering every element-wise fact; 100 000
+    quantifier instances against 130 without).  No proof in these contracts needs to conclude that two arrays are equal
+    from their elements; without the axiom z3 proves at most what it proves with it.
 (6) full-array copy store  `a[:, :] = b`  (every index a bare `:`; a, b heap arrays / snapshots of equal rank >= 2 and
     element type): obligations `shape-eq` per dimension; afterwards a[i, j] == b[i, j] for all i, j -- read, as numpy
     does, as an element-wise copy of every element (b is snapshot at the time of the store).
@@ -35,12 +60,17 @@ import z3
 from pyvc import calls
 from pyvc.engine import (Engine, Ref, Arr, OutsideSubset, I, R, toz, to_real, arr_sort, sort_kind, F_SQRT)
 
-A1 = z3.ArraySort(I, R)
-A2 = z3.ArraySort(I, z3.ArraySort(I, R))
-F_SUM1 = z3.Function("sum1", A1, I, R)
-F_MEAN1 = z3.Function("mean1", A1, I, R)
-F_COLSUM = z3.Function("colsum", A2, I, I, R)
-F_COLMEAN = z3.Function("colmean", A2, I, I, R)
+
+def _mean_symbols(E, data, c, what):
+    """per-instance symbols (mean constant, partial-sum function) of one array term / column: keyed by the identity of
+    the array TERM, so the program and the specification denote the mean of the same array by the same constant, and no
+    array is ever passed to an uninterpreted function (that would switch on array extensionality for the whole sort)"""
+    tab = E.__dict__.setdefault("_c18_means", {})
+    key = (what, data.get_id(), None if c is None else c.get_id())
+    if key not in tab:
+        n = next(E.fresh_n)
+        tab[key] = (z3.Const("%s!%d" % (what, n), R), z3.Function("%ssum!%d" % (what, n), I, R), data)
+    return tab[key][0], tab[key][1]
 
 
 def _delegate(path, E, node, st):
@@ -125,24 +155,22 @@ def _np_mean(E, node, st):
                 c = E.norm_index(E.ev(a0.slice.elts[1], st), X.shape[1], st, "mean-column")
                 n = toz(X.shape[0])
                 _nonempty(E, st, n, "mean")
-                m = F_COLMEAN(X.data, c, n)
+                m, S = _mean_symbols(E, X.data, c, "colmean")
                 st.pc.append(z3.And(
-                    F_COLSUM(X.data, c, z3.IntVal(0)) == 0,
-                    z3.ForAll([k], z3.Implies(k >= 0, F_COLSUM(X.data, c, k + 1) == F_COLSUM(X.data, c, k) + z3.Select(z3.Select(X.data, k), c)),
-                              patterns=[F_COLSUM(X.data, c, k + 1)]),
-                    z3.ToReal(n) * m == F_COLSUM(X.data, c, n)))
+                    S(z3.IntVal(0)) == 0,
+                    z3.ForAll([k], z3.Implies(k >= 0, S(k + 1) == S(k) + z3.Select(z3.Select(X.data, k), c)), patterns=[S(k + 1)]),
+                    z3.ToReal(n) * m == S(n)))
                 return m
     a = _arr1(E, E.ev(a0, st), st, "np.mean")
     if a.elem != "real":
         raise OutsideSubset("np.mean of a %s array" % a.elem)
     n = toz(a.shape[0])
     _nonempty(E, st, n, "mean")
-    m = F_MEAN1(a.data, n)
+    m, S = _mean_symbols(E, a.data, None, "mean")
     st.pc.append(z3.And(
-        F_SUM1(a.data, z3.IntVal(0)) == 0,
-        z3.ForAll([k], z3.Implies(k >= 0, F_SUM1(a.data, k + 1) == F_SUM1(a.data, k) + z3.Select(a.data, k)),
-                  patterns=[F_SUM1(a.data, k + 1)]),
-        z3.ToReal(n) * m == F_SUM1(a.data, n)))
+        S(z3.IntVal(0)) == 0,
+        z3.ForAll([k], z3.Implies(k >= 0, S(k + 1) == S(k) + z3.Select(a.data, k)), patterns=[S(k + 1)]),
+        z3.ToReal(n) * m == S(n)))
     return m
 
 
@@ -190,6 +218,11 @@ def _np_argmin(E, node, st):
 # ---- (7) opaque square
 OPAQUE_SQUARE = set()
 F_SQ = z3.Function("macro.sq18", R, R)
+F_UNF = z3.Function("macro.unf18", R, R)
+F_MFAC = z3.Function("macro.mfac18", R, R, R)
+F_UMFAC = z3.Function("macro.u_mfac18", R, R, z3.BoolSort())
+F_MV = z3.Function("macro.mv18", R, R, R, R)
+F_UMV = z3.Function("macro.u_mv18", R, R, R, z3.BoolSort())
 
 
 def _np_square(E, node, st):
@@ -217,8 +250,12 @@ if not getattr(verify, "_c18_sq", False):
 
     def _math_axioms():
         d = dict(_orig_math_axioms())
-        x = z3.Real("x!sq")
-        d["sq18"] = [z3.ForAll([x], F_SQ(x) == x * x, patterns=[F_SQ(x)])]
+        x, a, b, c, m, p = [z3.Real(n + "!c18") for n in "xabcmp"]
+        d["sq18"] = [z3.ForAll([x], z3.And(F_UNF(x) == x, F_SQ(x) == x * x), patterns=[F_UNF(x)])]
+        d["mfac18"] = [z3.ForAll([a, b], z3.And(F_UMFAC(a, b), F_MFAC(a, b) == a / b), patterns=[F_UMFAC(a, b)])]
+        d["mv18"] = [z3.ForAll([c, m, p], z3.And(F_UMV(c, m, p), F_MV(c, m, p) == c + m * (p - c)), patterns=[F_UMV(c, m, p)])]
+        d["sqrt_nonneg"] = [z3.ForAll([a], F_SQRT(a) >= 0, patterns=[F_SQRT(a)])]
+        d["sqrt_sq_at"] = [z3.ForAll([a], z3.Implies(a >= 0, F_SQRT(a) * F_SQRT(a) == a), patterns=[F_SQRT(F_UNF(a))])]
         return d
 
     verify.math_axioms = _math_axioms
@@ -254,13 +291,103 @@ def _full_copy_store(E, t, v, st):
     return True
 
 
+ROW_LEN = {}
+
+
+def _row_store(E, t, v, st):
+    n = ROW_LEN.get(E.c.key)
+    if n is None or not isinstance(t.value, ast.Name) or not isinstance(v, (Ref, Arr)):
+        return False
+    idx = E.index_list(t.slice)
+    base = st.env.get(t.value.id)
+    if not isinstance(base, Ref) or len(idx) != 2 or isinstance(idx[0], ast.Slice) or not _is_full_slice(idx[1]):
+        return False
+    arr = st.heap[base.id]
+    src = E.deref(v, st)
+    if arr.rank != 2 or src.rank != 1 or src.elem != arr.elem:
+        return False
+    i = E.norm_index(E.ev(idx[0], st), arr.shape[0], st, t.value.id)
+    E.emit("rowlen@%s" % E.cur_line, st, z3.And(toz(arr.shape[1]) == n, toz(src.shape[0]) == n), "index")
+    data = arr.data
+    for j in range(n):
+        data = E.store(data, [i, z3.IntVal(j)], z3.Select(src.data, z3.IntVal(j)))
+    st.heap[base.id] = Arr(data, arr.shape, arr.elem)
+    return True
+
+
 if not getattr(Engine, "_c18_copy_store", False):
     _orig_assign = Engine.assign
 
     def _assign(self, t, v, st, checked=False):
-        if isinstance(t, ast.Subscript) and _full_copy_store(self, t, v, st):
+        if isinstance(t, ast.Subscript) and (_full_copy_store(self, t, v, st) or _row_store(self, t, v, st)):
             return
         return _orig_assign(self, t, v, st, checked)
 
     Engine.assign = _assign
     Engine._c18_copy_store = True
+
+
+# ---- (8) slice facts with simplified index arithmetic
+def _resimplify(q):
+    if not z3.is_quantifier(q) or not q.is_forall():
+        return q
+    n = q.num_vars()
+    vs = [z3.Const("%s!s" % q.var_name(i), q.var_sort(i)) for i in range(n)]
+    rev = list(reversed(vs))
+    body = z3.simplify(z3.substitute_vars(q.body(), *rev))
+    pats = []
+    for k in range(q.num_patterns()):
+        p = q.pattern(k)
+        terms = [z3.simplify(z3.substitute_vars(p.arg(i), *rev)) for i in range(p.num_args())]
+        pats.append(z3.MultiPattern(*terms) if len(terms) > 1 else terms[0])
+    try:
+        return z3.ForAll(vs, body, patterns=pats)
+    except z3.Z3Exception:
+        return q
+
+
+if not getattr(Engine, "_c18_slice_simplify", False):
+    _orig_slice_read = Engine.slice_read
+
+    def _slice_read(self, arr, idx_nodes, st, node):
+        n0 = len(st.pc)
+        out = _orig_slice_read(self, arr, idx_nodes, st, node)
+        for i in range(n0, len(st.pc)):
+            st.pc[i] = _resimplify(st.pc[i])
+        return out
+
+    Engine.slice_read = _slice_read
+    Engine._c18_slice_simplify = True
+
+
+# ---- (10) array extensionality off for selected contracts
+NO_ARRAY_EXT = set()
+_current = {"key": None}
+
+if not getattr(verify, "_c18_noext", False):
+    _orig_all_axioms = verify.all_axioms
+    _orig_solve = verify._solve
+
+    def _all_axioms(E, proven_lemmas, internal_for=None):
+        _current["key"] = getattr(E.c, "key", None)
+        return _orig_all_axioms(E, proven_lemmas, internal_for=internal_for)
+
+    def _solve(hyps, goal, timeout_ms, ematch_only=False):
+        if _current["key"] not in NO_ARRAY_EXT:
+            return _orig_solve(hyps, goal, timeout_ms, ematch_only=ematch_only)
+        import os
+        s = z3.Solver()
+        s.set("timeout", timeout_ms)
+        s.set("smt.array.extensional", False)
+        if ematch_only:
+            if os.environ.get("VERIF_AC", "1") == "0":
+                s.set("auto_config", False)
+            s.set("smt.mbqi", False)
+        for h in hyps:
+            s.add(h)
+        s.add(z3.Not(goal))
+        return s, s.check()
+
+    verify.all_axioms = _all_axioms
+    verify._solve = _solve
+    verify._c18_noext = True
